@@ -28,7 +28,9 @@ replaying the served chain from genesis reproduces every block hash and state ro
   varint, decode but are not canonical — so a chain that admits such bytes into a block cannot be
   synced past that block (Go scenarios `corpus-noncanonical-tx-*`; on the current tree `CheckTx`
   refuses non-canonical bytes, so they never enter a block).
-* `replay_from_genesis` (model `Canopy.Exec`): a fresh node fed the committed blocks in order reaches,
+* `replay_from_genesis` (model `Canopy.Exec`; sync path, for the mechanism that writes the header's last
+  certificate before applying a block — `Canopy.C03.last_certificate_is_the_headers`): a fresh node fed
+  the committed blocks in order reaches,
   height by height, the committed state of the chain, accepts every block and archives the same
   results — by induction over the chain, for the abstract `applyBlock`.
 
@@ -154,10 +156,11 @@ def chainOk : σ → Nat → List β → Option σ
       | none => none
     else none
 
-/-- a node fed the blocks one by one through the peer-block path -/
-def replay (n : Node σ β ρ) (bs : List β) : Node σ β ρ := bs.foldl (fun n b => (commit S n b).1) n
+/-- a node fed the blocks one by one through the SYNC path (each with some version `v` of its commit
+certificate, here the archive's: 0) -/
+def replay (n : Node σ β ρ) (bs : List β) : Node σ β ρ := bs.foldl (fun n b => (commit S n b true 0).1) n
 
-theorem replay_chain (bs : List β) : ∀ (n : Node σ β ρ) (sA : σ), n.cached = none →
+theorem replay_chain (hix : S.indexesLastCert = true) (bs : List β) : ∀ (n : Node σ β ρ) (sA : σ), n.cached = none →
     chainOk S n.committed n.height bs = some sA →
     (replay S n bs).committed = sA ∧ (replay S n bs).height = n.height + bs.length ∧
     (replay S n bs).archive = (bs.map fun b => (b, S.claim b)).reverse ++ n.archive ∧
@@ -175,9 +178,11 @@ theorem replay_chain (bs : List β) : ∀ (n : Node σ β ρ) (sA : σ), n.cache
         simp only [hx] at h
         have hne : n.cached ≠ some b := by rw [hc]; simp
         -- the commit is a replay and accepts
-        have hcommit : (commit S n b).1 = finish S (reset S n) s' b (S.claim b) := by
+        have hcommit : (commit S n b true 0).1 = finish S (reset S n) s' b (S.claim b) 0 := by
           unfold exec at hx
-          simp only [commit, hh, ne_eq, not_true_eq_false, if_false, hne, reset]
+          have he := Canopy.C03.replayExec_eq S (reset S n) b true (Or.inr hix)
+          simp only [reset] at he
+          simp only [commit, hh, ne_eq, not_true_eq_false, if_false, hne, reset, he]
           cases ha : S.applyBlock n.committed b with
           | error e => simp [ha] at hx
           | ok p =>
@@ -187,12 +192,12 @@ theorem replay_chain (bs : List β) : ∀ (n : Node σ β ρ) (sA : σ), n.cache
             · simp only [hr, if_true, Option.some.injEq] at hx
               simp [hr, hx]
             · simp [hr] at hx
-        have hn' : (commit S n b).1.cached = none ∧ (commit S n b).1.committed = s' ∧
-            (commit S n b).1.height = n.height + 1 ∧ (commit S n b).1.archive = (b, S.claim b) :: n.archive := by
+        have hn' : (commit S n b true 0).1.cached = none ∧ (commit S n b true 0).1.committed = s' ∧
+            (commit S n b true 0).1.height = n.height + 1 ∧ (commit S n b true 0).1.archive = (b, S.claim b) :: n.archive := by
           rw [hcommit]
           simp only [finish, reset, hc]
           cases S.resetClearsCache <;> simp
-        have := ih (commit S n b).1 sA hn'.1 (by rw [hn'.2.1, hn'.2.2.1]; exact h)
+        have := ih (commit S n b true 0).1 sA hn'.1 (by rw [hn'.2.1, hn'.2.2.1]; exact h)
         simp only [replay, List.foldl_cons] at this ⊢
         refine ⟨this.1, ?_, ?_, this.2.2.2⟩
         · rw [this.2.1, hn'.2.2.1]; simp; omega
@@ -202,16 +207,16 @@ theorem replay_chain (bs : List β) : ∀ (n : Node σ β ρ) (sA : σ), n.cache
 /-- **replay_from_genesis.** A fresh node holding the genesis, fed the blocks of a committed chain in
 order, accepts every one of them and ends with the chain's committed state, at the chain's height,
 with every block archived with the certified result. -/
-theorem replay_from_genesis (genesis : σ) (h0 : Nat) (bs : List β) (sA : σ)
+theorem replay_from_genesis (hix : S.indexesLastCert = true) (genesis : σ) (h0 : Nat) (bs : List β) (sA : σ)
     (h : chainOk S genesis h0 bs = some sA) :
     (replay S (init genesis h0) bs).committed = sA ∧
     (replay S (init genesis h0) bs).height = h0 + bs.length ∧
     (replay S (init genesis h0) bs).archive = (bs.map fun b => (b, S.claim b)).reverse := by
-  have := replay_chain S bs (init genesis h0) sA rfl h
+  have := replay_chain S hix bs (init genesis h0) sA rfl h
   exact ⟨this.1, this.2.1, by simpa [init] using this.2.2.1⟩
 
 /-- every prefix too: the fresh node reproduces each intermediate state -/
-theorem replay_prefix (genesis : σ) (h0 : Nat) (pre post : List β) (sA : σ)
+theorem replay_prefix (hix : S.indexesLastCert = true) (genesis : σ) (h0 : Nat) (pre post : List β) (sA : σ)
     (h : chainOk S genesis h0 (pre ++ post) = some sA) :
     ∃ sMid, chainOk S genesis h0 pre = some sMid ∧ (replay S (init genesis h0) pre).committed = sMid := by
   have key : ∀ (pre : List β) (s : σ) (h1 : Nat), chainOk S s h1 (pre ++ post) = some sA →
@@ -229,11 +234,11 @@ theorem replay_prefix (genesis : σ) (h0 : Nat) (pre post : List β) (sA : σ)
         | some s' => simp only [hx] at hk ⊢; exact ih s' (h1 + 1) hk
       · simp [hh] at hk
   obtain ⟨sMid, hm⟩ := key pre genesis h0 h
-  exact ⟨sMid, hm, (replay_from_genesis S genesis h0 pre sMid hm).1⟩
+  exact ⟨sMid, hm, (replay_from_genesis S hix genesis h0 pre sMid hm).1⟩
 
 /-- non-vacuity -/
 example :
-    let S : Sys Nat Nat Nat Unit := ⟨fun s b => .ok (s + b, b), fun s _ => s, id, fun b => b / 10, true⟩
+    let S : Sys Nat Nat Nat Unit := ⟨fun s b => .ok (s + b, b), fun s _ => s, id, fun b => b / 10, true, fun _ => 0, fun _ _ _ => .error (), true⟩
     chainOk S 0 1 [10, 25, 31] = some 66 ∧ (replay S (init 0 1 : Node Nat Nat Nat) [10, 25, 31]).committed = 66 := by
   decide
 
